@@ -554,9 +554,11 @@ impl MultiFileIterator {
             .file_stem()
             .and_then(|s| s.to_str())
             .map(|s| {
-                // Remove .fa or .fasta extensions if present
+                // Remove .fa, .fasta or .fna extensions if present (what is left of them after
+                // file_stem() removed a trailing .gz): x.fna.gz must name the same sample as x.fna
                 s.trim_end_matches(".fa")
                     .trim_end_matches(".fasta")
+                    .trim_end_matches(".fna")
                     .to_string()
             })
             .unwrap_or_else(|| "unknown".to_string());
